@@ -8,6 +8,7 @@
 package zzvf
 
 import (
+	"sync"
 	"strings"
 	"encoding/hex"
 	"encoding/json"
@@ -370,6 +371,25 @@ func HavocU64(fn, name string) uint64 { return nextU("u64") }
 // together with the set of ghost locks held. Natively no-ops.
 func LocksetBegin(tag string) {}
 func LocksetEnd()             {}
+
+// RacePair: a and b are two operations on one shared instance. Under the executor they run
+// one after the other while every access to state that existed before the pair started is
+// recorded together with the set of ghost locks held; a common cell, at least one write,
+// and no common lock held in write mode by one side = a data race (obligation `label`).
+// The closures must not write variables they share by capture. Natively the two closures
+// run concurrently (the replay binary is built with -race when the harness file carries a
+// `//vf:race` line) so that the race detector confirms the finding.
+func RacePair(label string, a, b func()) {
+	for i := 0; i < 50; i++ {
+		var wg sync.WaitGroup
+		start := make(chan struct{})
+		wg.Add(2)
+		go func() { defer wg.Done(); defer func() { recover() }(); <-start; a() }()
+		go func() { defer wg.Done(); defer func() { recover() }(); <-start; b() }()
+		close(start)
+		wg.Wait()
+	}
+}
 
 // Conflicts reports whether two recorded operations touch a common cell, at least one
 // writing, with disjoint locksets (executor only).
